@@ -185,3 +185,5 @@ func sigs(fs []Failure) []string {
 	}
 	return s
 }
+
+func newRand(seed int64) *rand.Rand { return rand.New(rand.NewSource(seed)) }
